@@ -150,6 +150,106 @@ example : waitedOn 0 [.build .noop (fun _ => true), .trigger ⟨0, 7⟩, .trigge
     (run init [.build .noop (fun _ => true), .trigger ⟨0, 7⟩, .trigger ⟨0, 8⟩, .wait 0]) = [(0, ⟨0, 7⟩)] := by
   decide
 
+/-! ## exactly once across *all* barriers -/
+
+theorem triggersOf_tids (ops : List Op) : ∀ (sp : SpecSt),
+    ((triggersOf sp ops).map (·.tid)).Pairwise (· < ·) ∧ ∀ t ∈ triggersOf sp ops, sp.nextT ≤ t.tid := by
+  induction ops with
+  | nil => intro sp; simp [triggersOf]
+  | cons op ops ih =>
+    intro sp
+    cases op with
+    | trigger ev =>
+      have h := ih (specStep sp (.trigger ev))
+      simp only [triggersOf, List.map_cons, List.pairwise_cons, List.mem_cons]
+      refine ⟨⟨?_, h.1⟩, ?_⟩
+      · intro a ha
+        obtain ⟨t, ht, rfl⟩ := List.mem_map.mp ha
+        have := h.2 t ht
+        simp only [specStep] at this; omega
+      · rintro t (rfl | ht)
+        · exact Nat.le_refl _
+        · have := h.2 t ht
+          simp only [specStep] at this; omega
+    | triggerNoop ev =>
+      have h := ih (specStep sp (.triggerNoop ev))
+      simp only [triggersOf, List.map_cons, List.pairwise_cons, List.mem_cons]
+      refine ⟨⟨?_, h.1⟩, ?_⟩
+      · intro a ha
+        obtain ⟨t, ht, rfl⟩ := List.mem_map.mp ha
+        have := h.2 t ht
+        simp only [specStep] at this; omega
+      · rintro t (rfl | ht)
+        · exact Nat.le_refl _
+        · have := h.2 t ht
+          simp only [specStep] at this; omega
+    | build r c => simpa [triggersOf, specStep] using ih (specStep sp (.build r c))
+    | wait b => simpa [triggersOf, specStep] using ih sp
+    | dropHandle t => simpa [triggersOf, specStep] using ih sp
+    | dropBarrier b => simpa [triggersOf, specStep] using ih (specStep sp (.dropBarrier b))
+
+theorem eq_of_tid_eq {l : List TrigRec} (h : (l.map (·.tid)).Pairwise (· < ·)) :
+    ∀ {a b : TrigRec}, a ∈ l → b ∈ l → a.tid = b.tid → a = b := by
+  induction l with
+  | nil => intro a b ha; cases ha
+  | cons x xs ih =>
+    simp only [List.map_cons, List.pairwise_cons] at h
+    intro a b ha hb hab
+    rcases List.mem_cons.mp ha with rfl | ha' <;> rcases List.mem_cons.mp hb with rfl | hb'
+    · rfl
+    · have := h.1 _ (List.mem_map.mpr ⟨b, hb', rfl⟩); omega
+    · have := h.1 _ (List.mem_map.mpr ⟨a, ha', rfl⟩); omega
+    · exact ih h.2 ha' hb' hab
+
+/-- **Exactly once, over all barriers.** Whatever the number of barriers, however their conditions overlap
+    and whatever the create / drop history: (1) the trigger ids in a barrier's report list are strictly
+    increasing — trigger order, no trigger twice; (2) no trigger appears in the report lists of two different
+    barriers. With `once_in_order` this is what `wait` hands out. -/
+theorem reports_exactly_once (ops : List Op) :
+    (∀ b, ((specReports b spec0 ops).map (·.1)).Pairwise (· < ·)) ∧
+    (∀ b b' x y, x ∈ specReports b spec0 ops → y ∈ specReports b' spec0 ops → x.1 = y.1 → b = b' ∧ x = y) := by
+  have hT := (triggersOf_tids ops spec0).1
+  constructor
+  · intro b
+    have hsub : ((specReports b spec0 ops).map (·.1)).Sublist ((triggersOf spec0 ops).map (·.tid)) := by
+      simp only [specReports, List.map_map]
+      exact (List.filter_sublist).map _
+    exact List.Pairwise.sublist hsub hT
+  · intro b b' x y hx hy hxy
+    simp only [specReports, List.mem_map, List.mem_filter] at hx hy
+    obtain ⟨t, ⟨ht, hrt⟩, rfl⟩ := hx
+    obtain ⟨t', ⟨ht', hrt'⟩, rfl⟩ := hy
+    have : t = t' := eq_of_tid_eq hT ht ht' hxy
+    subst this
+    refine ⟨?_, rfl⟩
+    simp only [reportedTo] at hrt hrt'
+    cases hfl : firstLive t with
+    | none => simp [hfl] at hrt
+    | some l =>
+      simp only [hfl, Bool.and_eq_true, beq_iff_eq] at hrt hrt'
+      exact hrt.1.symm.trans hrt'.1
+
+/-- What `wait b` has returned so far carries strictly increasing trigger ids (no repeat, trigger order), and a
+    trigger returned by `wait b` is never returned by `wait b'` for another barrier. -/
+theorem waited_exactly_once (ops : List Op) :
+    (∀ b, ((waitedOn b ops (run init ops)).map (·.1)).Pairwise (· < ·)) ∧
+    (∀ b b' x y, x ∈ waitedOn b ops (run init ops) → y ∈ waitedOn b' ops (run init ops) → x.1 = y.1 → b = b') := by
+  have h := reports_exactly_once ops
+  constructor
+  · intro b
+    obtain ⟨t, ht⟩ := waited_prefix ops b
+    have := h.1 b
+    rw [← ht, List.map_append] at this
+    exact (List.pairwise_append.mp this).1
+  · intro b b' x y hx hy hxy
+    obtain ⟨t, ht⟩ := waited_prefix ops b
+    obtain ⟨t', ht'⟩ := waited_prefix ops b'
+    exact (h.2 b b' x y (ht ▸ List.mem_append_left _ hx) (ht' ▸ List.mem_append_left _ hy) hxy).1
+
+example : specReports 1 spec0
+    [.build .suspend (fun e => e.val == 1), .build .noop (fun _ => true), .trigger ⟨0, 1⟩, .trigger ⟨0, 0⟩,
+     .dropBarrier 0, .trigger ⟨0, 1⟩] = [(1, ⟨0, 0⟩), (2, ⟨0, 1⟩)] := by decide
+
 /-! ## outcomes: the triggering code experiences what the specification says -/
 
 theorem outcome_step {s : State} {sp : SpecSt} (hR : R s sp) (ev : Event) :
@@ -388,6 +488,85 @@ theorem suspend_step {s : State} (hs : Reachable s) (op : Op) :
     (∀ b, op = .dropBarrier b → isLive b s.regs = true →
         (step s op).2.resumed = heldTids (queueOf b s.regs)) :=
   susp_step hs op
+
+/-- **Dropping a Suspend handle releases exactly that one trigger.** In every reachable state, if the test holds
+    the handle of a parked trigger `t` (a report with a release sender that `wait` handed out), dropping it resumes
+    `t` and nothing else: `t` was parked and is not any more, every other parked trigger stays parked. Dropping a
+    handle that holds no sender (Noop report, unknown id) resumes nothing and changes the parked set not at all. -/
+theorem drop_handle_releases_exactly_one {s : State} (hs : Reachable s) (t : Nat) :
+    (t ∈ heldTids s.handles →
+      (step s (.dropHandle t)).2.resumed = [t] ∧ t ∈ s.suspended ∧ t ∉ (step s (.dropHandle t)).1.suspended ∧
+      ∀ t' ∈ s.suspended, t' ≠ t → t' ∈ (step s (.dropHandle t)).1.suspended) ∧
+    (t ∉ heldTids s.handles →
+      (step s (.dropHandle t)).2.resumed = [] ∧
+      ∀ t', t' ∈ s.suspended ↔ t' ∈ (step s (.dropHandle t)).1.suspended) := by
+  obtain ⟨h1, h2, _, h4, _⟩ := susp_step hs (.dropHandle t)
+  have h4' := h4 t rfl
+  constructor
+  · intro hm
+    have hr := h4'.1.mpr hm
+    have ht := h1 t (by rw [hr]; exact List.mem_singleton.mpr rfl)
+    refine ⟨hr, ht.1, ht.2, ?_⟩
+    intro t' ht' hne
+    exact h2 t' ht' (by rw [hr]; simpa using hne)
+  · intro hm
+    have hr := h4'.2.mpr hm
+    refine ⟨hr, ?_⟩
+    intro t'
+    constructor
+    · intro ht'; exact h2 t' ht' (by rw [hr]; simp)
+    · intro ht'
+      -- nothing is ever added to the parked set by a drop
+      have : (step s (.dropHandle t)).1.suspended = without s.suspended (heldTids (s.handles.filter (fun r => r.tid == t))) := rfl
+      rw [this] at ht'
+      exact (mem_without.mp ht').1
+
+/-- **Stays parked until dropped.** From any reachable state, a parked trigger `t` is still parked after any
+    continuation that contains neither `dropHandle t` nor a barrier drop — builds, further triggers of every kind,
+    waits (which only move its sender from a channel into a handle) and drops of *other* handles do not release it. -/
+theorem stays_parked (ops : List Op) : ∀ {s : State}, Reachable s → ∀ t ∈ s.suspended,
+    (∀ op ∈ ops, op ≠ .dropHandle t ∧ ∀ b, op ≠ .dropBarrier b) → t ∈ (final s ops).suspended := by
+  induction ops with
+  | nil => intro s _ t ht _; exact ht
+  | cons op ops ih =>
+    intro s hs t ht hops
+    have hop := hops op List.mem_cons_self
+    obtain ⟨_, h2, h3, h4, _⟩ := susp_step hs op
+    have hnot : t ∉ (step s op).2.resumed := by
+      intro hmem
+      have hne : (step s op).2.resumed ≠ [] := by intro h0; rw [h0] at hmem; cases hmem
+      rcases h3 hne with ⟨t', rfl⟩ | ⟨b, rfl⟩
+      · have htt : t' ≠ t := fun h => hop.1 (h ▸ rfl)
+        by_cases hh : t' ∈ heldTids s.handles
+        · rw [(h4 t' rfl).1.mpr hh] at hmem
+          exact htt (List.mem_singleton.mp hmem).symm
+        · rw [(h4 t' rfl).2.mpr hh] at hmem; cases hmem
+      · exact hop.2 b rfl
+    exact ih (Reachable.step op hs) t (h2 t ht hnot) (fun o ho => hops o (List.mem_cons_of_mem _ ho))
+
+example : 0 ∈ (final init [.build .suspend (fun _ => true), .trigger ⟨0, 0⟩, .trigger ⟨0, 5⟩, .wait 0, .wait 0,
+    .dropHandle 1, .build .noop (fun _ => true), .triggerNoop ⟨0, 1⟩]).suspended := by decide
+
+/-- A parked trigger has exactly one holder: its sender is either in one live barrier's channel or in one
+    handle, never in both and never twice. -/
+theorem holder_unique {s : State} (hs : Reachable s) (t : Nat) (ht : t ∈ s.suspended) :
+    (heldTids (allReports s)).count t = 1 ∧ ¬ (t ∈ heldTids (allQ s.regs) ∧ t ∈ heldTids s.handles) := by
+  have hI := susp_inv hs
+  have hnd : (heldTids (allReports s)).Nodup := by
+    have hsub : (heldTids (allReports s)).Sublist (tidsOf (allReports s)) := (List.filter_sublist).map _
+    exact List.Nodup.sublist hsub hI.nodup
+  have hmem : t ∈ heldTids (allReports s) := (hI.mem_iff' t).mp ht
+  refine ⟨?_, ?_⟩
+  · have h1 : (heldTids (allReports s)).count t ≤ 1 := List.nodup_iff_count.mp hnd t
+    have h2 : 0 < (heldTids (allReports s)).count t := List.count_pos_iff.mpr hmem
+    omega
+  · rintro ⟨hq, hh⟩
+    obtain ⟨r, hr, _, hrt⟩ := mem_heldTids.mp hq
+    obtain ⟨r', hr', _, hrt'⟩ := mem_heldTids.mp hh
+    exact cross_ne hI.nodup hr hr' (by rw [hrt, hrt'])
+
+example : (step (final init [.build .suspend (fun _ => true), .trigger ⟨0, 0⟩, .trigger ⟨0, 1⟩, .wait 0, .wait 0])
+    (.dropHandle 1)).2.resumed = [1] := by decide
 
 /-- A `Suspend`-matched async trigger parks, with its sender in the matched barrier's channel. -/
 theorem suspend_onset (s : State) (ev : Event) (e : Entry) (hm : firstMatch s.regs ev = some e)
